@@ -254,9 +254,13 @@ func (s LWs) Close() (err error) {
 	return
 }
 
-// SetLevel tells every member that asks for it (LevelSettable) the severity
-// of the record about to be written.
-func (s LWs) SetLevel(lvl Level) {
+// SetLevel remembers nothing: LWs.WriteLevel tells each member the severity
+// immediately before that member's Write.
+func (s LWs) SetLevel(lvl Level) {}
+
+// WriteLevel writes p to every member, telling each member that asks for it
+// (LevelSettable) the severity immediately before its Write.
+func (s LWs) WriteLevel(lvl Level, p []byte) (n int, err error) {
 	for _, w := range s {
 		if x, ok := w.(LevelSettable); ok {
 			x.SetLevel(lvl)
@@ -265,7 +269,13 @@ func (s LWs) SetLevel(lvl Level) {
 				x.SetLevel(lvl)
 			}
 		}
+		if ni, e := w.Write(p); e != nil {
+			err = errors.Join(err, e)
+		} else {
+			n += ni
+		}
 	}
+	return
 }
 
 func (s LWs) Write(p []byte) (n int, err error) {
